@@ -379,3 +379,10 @@ Proof.
     destruct (w_rec_ids w) as [|i l]; [destruct H1|].
     destruct H1 as [<-|[]]. destruct H2 as [<-|[]]. simpl in *. congruence.
 Qed.
+
+(* the C12 heap machine in ANY reachable state + empty JavaScript caches (on or off, any
+   capacities) satisfies the invariant of caches_invisible_js *)
+Theorem heap_reachable_InvJ : forall r compile caching s F acq picks memo nocache pc nc,
+  Heap.reachable caching s F acq ->
+  PJS.InvJ r compile (mkHid (PipelineHeap.abs_alloc caching s picks) memo (MJ.st_init nocache pc nc)).
+Proof. exact PipelineHeap.reachable_InvJ. Qed.
